@@ -416,6 +416,8 @@ type frame struct {
 	Resize  map[string][2]int `json:"resize,omitempty"` // image index -> new box (before drawing)
 	Refresh bool              `json:"refresh,omitempty"`
 	NoClear bool              `json:"no_clear,omitempty"`
+	// Win: image index -> size of the window it is drawn into (default 20x10)
+	Win map[string][2]int `json:"window,omitempty"`
 }
 
 type plCase struct {
@@ -493,6 +495,7 @@ func runPlacements(w *harness.W, sess *vxh.Session, c plCase, sample bool) bool 
 		}
 		next := map[pl]bool{}
 		var order []pl
+		var overlarge []string
 		keys := make([]string, 0, len(f.Place))
 		for k := range f.Place {
 			keys = append(keys, k)
@@ -502,13 +505,21 @@ func runPlacements(w *harness.W, sess *vxh.Session, c plCase, sample bool) bool 
 			var i int
 			fmt.Sscanf(k, "%d", &i)
 			pos := f.Place[k]
-			win := root.New(pos[0], pos[1], 20, 10)
+			wsz := [2]int{20, 10}
+			if v, ok := f.Win[k]; ok {
+				wsz = v
+			}
+			win := root.New(pos[0], pos[1], wsz[0], wsz[1])
 			imgs[i].vi.Draw(win)
 			p := pl{i, pos[0], pos[1], imgs[i].w, imgs[i].h}
 			if c.Proto == "sixel" {
 				ww, wh := win.Size()
 				if imgs[i].w > ww || imgs[i].h > wh || imgs[i].w == 0 || imgs[i].h == 0 {
-					continue // documented: not drawn when larger than the window
+					// a sixel cannot be clipped: documented as not drawn when
+					// larger than the window
+					overlarge = append(overlarge, fmt.Sprintf("%d,%d", pos[0], pos[1]))
+					w.Count("sixel_draws_into_a_window_smaller_than_the_image", 1)
+					continue
 				}
 			}
 			next[p] = true
@@ -580,6 +591,18 @@ func runPlacements(w *harness.W, sess *vxh.Session, c plCase, sample bool) bool 
 			}
 			sort.Strings(want)
 			sort.Strings(sixels)
+			for _, o := range overlarge {
+				inWant := false
+				for _, x := range want {
+					inWant = inWant || x == o
+				}
+				for _, x := range sixels {
+					if x == o && !inWant {
+						fail("clip:written-although-larger-than-the-window", fmt.Sprintf("a sixel image larger than its window (in one or both dimensions) was written at cell %s: it covers cells outside the window", o))
+						return true
+					}
+				}
+			}
 			if strings.Join(want, " ") != strings.Join(sixels, " ") {
 				key := "retransmitted-or-missing"
 				if len(sixels) > len(want) {
@@ -693,8 +716,20 @@ func genPlacements(r gen.R, proto string) plCase {
 				}
 			}
 		}
-		for k, v := range cur {
+		for i := 0; i < n; i++ {
+			k := fmt.Sprint(i)
+			v, ok := cur[k]
+			if !ok {
+				continue
+			}
 			f.Place[k] = v
+			if proto == "sixel" && r.Intn(3) == 0 {
+				// a window smaller than the image, often in one dimension only
+				if f.Win == nil {
+					f.Win = map[string][2]int{}
+				}
+				f.Win[k] = [][2]int{{r.Range(1, 4), 10}, {20, r.Range(1, 2)}, {r.Range(1, 8), r.Range(1, 5)}}[r.Intn(3)]
+			}
 		}
 		f.Refresh = r.Intn(7) == 0
 		c.Frames = append(c.Frames, f)
